@@ -76,7 +76,7 @@ func (rt Rate) Recalculate(minimum time.Duration) (Rate, error) {
 	// integer overflows are not possible given the checks above
 	interval := time.Duration(uint64(rt.Interval) / rt.Quantity)
 
-	if interval > minimum {
+	if interval >= minimum && interval != 0 {
 		recalculated := Rate{
 			Interval: interval,
 			Quantity: 1,
